@@ -153,7 +153,17 @@ class Builder(NullCell):
         i = self.available_bytes
         if len(value) <= i:
             return self.store_bytes(value)
-        return self.store_bytes(value[:i]).store_ref(Builder().store_snake_bytes(value[i:]).end_cell())
+        self.store_bytes(value[:i])
+        # the tail cells hold 127 bytes each; build the chain from its end (no recursion: a chain of
+        # depth <= 1023 must not depend on the interpreter's recursion limit)
+        rest = value[i:]
+        tail = None
+        for j in reversed(range(0, len(rest), 127)):
+            builder = Builder().store_bytes(rest[j:j + 127])
+            if tail is not None:
+                builder.store_ref(tail)
+            tail = builder.end_cell()
+        return self.store_ref(tail)
 
     def store_snake_string(self, value: str, need_prefix: bool = False):
         value = value.encode()
